@@ -112,10 +112,11 @@ def layoutMany : List (Var Float) :=
     argument (then) still ends in the save extension, ".o" is appended; a leading "/" is relative to the mudlib -/
 def saveName (file : List Byte) : List Byte :=
   let n := file.length
+  let ext : List Byte := [NV.Gen.C16.saveExt0, NV.Gen.C16.saveExt1]      -- SAVE_EXTENSION, regenerated
   let base :=
-    if n ≥ 2 ∧ file.drop (n - 2) = [46, 99] then file.take (n - 2) ++ [46, 111]
-    else if n ≥ 2 ∧ file.drop (n - 2) = [46, 111] then file
-    else file ++ [46, 111]
+    if n ≥ 2 ∧ file.drop (n - 2) = [46, 99] then file.take (n - 2) ++ ext
+    else if n ≥ ext.length ∧ file.drop (n - ext.length) = ext then file
+    else file ++ ext
   match base with
   | 47 :: r => r
   | b => b
@@ -239,16 +240,17 @@ def runCmdFlat (s : DState) (line : String) : DState :=
   | ["son", nm, _, path] =>
     let name := if nm == "-" then [] else bytesOfHex nm
     if saveObjectCrash FloatIO s.vars then s.emit "crash model"
-    else s.emit s!"so 1 made={if saveName name == bytesOfHex path then 1 else 0}"
+    else s.emit s!"so 1 made={if saveName name == bytesOfHex path then 1 else 0} tmp={hexOf (tmpName (saveName name))} left=0"
   | ["so", z] =>
     let zeros := z != "0"
     if saveObjectCrash FloatIO s.vars then s.emit "crash model"
     else if s.vars.any (fun v => !v.isStatic && saveVariable FloatIO v.val == .tooDeep) then
       -- too_deep_save_error() in the middle of save_object_recurse: the LPC error leaves the save file alone
       let s := (s.emit s!"err Mappings and/or arrays nested too deep ({maxDepth}) for save_object").emit "so -1"
+      -- the error leaves through longjmp: the stream is never closed, the temporary stays (open finding K7)
       match s.file with
-      | none => s.emit "file none"
-      | some _ => s.emit "file ?"
+      | none => (s.emit "file none").emit "tmp-left-behind"
+      | some _ => (s.emit "file ?").emit "tmp-left-behind"
     else
       let s := { s with file := some (saveFileText FloatIO s.progName zeros s.vars) }
       (s.emit "so 1").emit ("file " ++ hexOf (fileCanon s.progName s.vars zeros))
@@ -279,6 +281,7 @@ def runCmdFlat (s : DState) (line : String) : DState :=
 def runCmd (s : DState) (line : String) : DState :=
   match toks line with
   | "prog" :: _ => s
+  | "mkd" :: _ => s
   | ["useg", _] =>
     match s.dumps with
     | d :: rest =>
